@@ -32,6 +32,7 @@ const (
 	findingConcreteNoTypename = "C02-concrete-object-without-typename-drops-conditioned-fields"
 	findingRootNotObject      = "C02-subgraph-data-not-object-aborts-request"
 	findingCopyPossible       = "C02-plan-object-copy-drops-possible-types"
+	findingAliasTypename      = "C02-aliased-typename-value-not-validated"
 	// planner / postprocess: the tree T is not a faithful compilation of the operation
 	findingUnionTypename   = "C02-plan-union-typename-hoisted"
 	findingNestedAbstract  = "C02-plan-nested-abstract-fragment-loses-outer-condition"
@@ -129,6 +130,8 @@ func genCase(rootReplace bool) func(t *rapid.T) Case {
 					id = findingPanic // the outcome is a panic, nothing behind it could be checked
 				case pbt.IsKnown(findingConcreteNoTypename) && m.concreteNoTypenameClass(root):
 					id = findingConcreteNoTypename
+				case pbt.IsKnown(findingAliasTypename) && aliasTypenameClass(m.allOffenders(root)):
+					id = findingAliasTypename
 				}
 				if id != "" {
 					root = snap
@@ -156,7 +159,7 @@ func (m *model) allOffenders(j *jv) []offender {
 // node of such a list has an empty Path). It describes the class of inputs, not the oracle.
 func predictsInnerListPanic(offs []offender) bool {
 	for _, o := range offs {
-		if o.tolerated && o.what != "concrete-typename-mismatch" {
+		if o.tolerated {
 			continue
 		}
 		if !o.nnaInner {
@@ -164,7 +167,7 @@ func predictsInnerListPanic(offs []offender) bool {
 		}
 		if o.kind == "type" && o.selfNull {
 			// values the code replaces in place without involving the enclosing list
-			if o.what == "enum-invalid-value" || strings.HasPrefix(o.what, "typename-") || o.what == "concrete-typename-mismatch" || (o.composite && o.isItem) {
+			if o.what == "enum-invalid-value" || strings.HasPrefix(o.what, "typename-") || (o.composite && o.isItem) {
 				continue
 			}
 		}
@@ -306,7 +309,8 @@ func checkCase(c Case, o *pbt.Rec, md mode) pbt.Verdict {
 		var keep []violation
 		for _, v := range res.viol {
 			switch v.kind {
-			case "envelope", "kind", "null-at-nonnull", "key-missing", "key-unselected", "key-duplicate", "abstract-unknown-type-rendered":
+			case "envelope", "kind", "null-at-nonnull", "key-missing", "key-unselected", "key-duplicate", "abstract-unknown-type-rendered",
+				"typename-value", "typename-value-forwarded-alias":
 				keep = append(keep, v)
 			}
 		}
@@ -367,6 +371,12 @@ func attribute(res result, uf []unfaithful, ctxt func() string) pbt.Verdict {
 	}
 	for _, v := range res.viol {
 		v := v
+		if v.kind == "typename-value-forwarded-alias" && aliasTypenameOffenderAt(res.offs, v.path) {
+			// recogniser of findingAliasTypename: j carries an invalid type name under the alias key
+			// of a selected __typename and exactly that value is delivered
+			note(findingAliasTypename)
+			continue
+		}
 		if !explainedBy(func(u unfaithful) bool { return explainsViolation(u, v) }) {
 			allExplained = false
 		}
@@ -392,6 +402,26 @@ func attribute(res result, uf []unfaithful, ctxt func() string) pbt.Verdict {
 		return pbt.BadKnown(id, "%s%s", msg, ctxt())
 	}
 	return pbt.Bad("%s%s", msg, ctxt())
+}
+
+// aliasTypenameClass is the input class of findingAliasTypename: the value under the ALIAS key
+// of a selected __typename is a string that names no possible type of its object.
+func aliasTypenameClass(offs []offender) bool {
+	for _, o := range offs {
+		if o.what == "typename-field-invalid-name" && lastKey(o.path) != "__typename" {
+			return true
+		}
+	}
+	return false
+}
+
+func aliasTypenameOffenderAt(offs []offender, path []any) bool {
+	for _, o := range offs {
+		if o.what == "typename-field-invalid-name" && lastKey(o.path) != "__typename" && samePath(o.path, path) {
+			return true
+		}
+	}
+	return false
 }
 
 func samePath(a, b []any) bool { return len(a) == len(b) && hasPrefixPath(a, b) }
